@@ -126,7 +126,7 @@ def execute(case, ctx):
                 viol("valid-python", "file-not-utf8-after-rewrite", fn)
                 continue
             try:
-                ast.parse(new_t)
+                compile(new_t, fn, "exec", dont_inherit=True)  # more than ast.parse: also `from __future__` placement, duplicate arguments ...
                 osites = P.find_sites(old_t)
                 nsites = P.find_sites(new_t)
             except SyntaxError as ex:
